@@ -6,7 +6,7 @@ TECH = "deterministic simulation with fault injection: seeded scheduler over a t
 
 CHECKS = {
  "C14": dict(level="exploration",
-   text="Seeded search over delivery orders, handler stalls, reply-before-wait, nested call-backs and cancellations on two real jsonrpc2.Remote ends joined by a simulated connection; oracles: own reply by unique token, handled exactly once, context service identity, prompt cancellation, bounded liveness after faults stop. In half of the runs callers can also be preempted right before every atomic operation of the repository (yield points inserted at build time by sim/cmd/instrument through -overlay; on this tree: request-id allocation). Sampling, not proof.",
+   text="Seeded search over delivery orders, handler stalls, reply-before-wait, nested call-backs and cancellations on two real jsonrpc2.Remote ends joined by a simulated connection; oracles: own reply by unique token, handled exactly once, context service identity, prompt cancellation, bounded liveness after faults stop. In half of the runs callers can also be preempted right before every atomic operation of the repository (yield points inserted at build time by sim/cmd/instrument through -overlay; on this tree: request-id allocation). In a third of the runs messages queued behind one another arrive in one burst (several frames in one segment: the reading loop finds the next message without a scheduling decision in between; at most one reply per burst, handlers park on entry). Sampling, not proof.",
    note="Connection is a message-level FIFO stub (no loss/reorder inside a connection, as TCP/WebSocket); a caller parked between write and wait is not cancelled (Go's select would choose at random).",
    technique=TECH+"message-delivery/handler-release/cancellation schedules, token oracle + bounded liveness", design="4 C14"),
 }
@@ -81,7 +81,7 @@ CHECKS.update({
    note="c20_l2_runner runs the production agentRunner (LoadAgent over the --update-interval option space: accepted only inside (5 s, 120 s); LoadPool + Run against the real runPool over a simulated WebSocket; keep-alives counted per interval as the pool's store sees them; Stop ends Run). Stop is only called while the model says the loop runs (Stop blocks by design otherwise).",
    technique=TECH+"lifecycle call sequences on a simulated clock; keep-alive cadence counted per simulated interval", design="4 C20"),
  "C17": dict(level="exploration",
-   text="1-40 messages (requests, replies, tiny, > 64 KiB, unicode, nested) per writer are written through each codec to a simulated byte stream whose bytes the scheduler delivers in seeded chunks (one byte at a time, splits inside a message, several messages per read): stream codec (IOCodec), gorilla and gobwas WebSocket codecs through a real net/http server + real dialers, HTTP codec through real http.Transport/http.Server. The reader must obtain the same messages once, intact, in per-writer order. For the shipped codec (gorilla) 1-4 concurrent writers per side are used and a tenth of the runs is repeated in a -race build with masked scheduler hand-offs, so that unsynchronised writers are reported.",
+   text="1-40 messages (requests, replies, tiny, > 64 KiB, unicode, nested) per writer are written through each codec to a simulated byte stream whose bytes the scheduler delivers in seeded chunks (one byte at a time, splits inside a message, several messages per read): stream codec (IOCodec), gorilla and gobwas WebSocket codecs through a real net/http server + real dialers, HTTP codec through real http.Transport/http.Server (requests and replies from a few bytes to 70 KB - replies beyond the server's 2 KB buffer travel chunked, without a Content-Length -, with and without a MaxContentLength on the caller). The reader must obtain the same messages once, intact, in per-writer order. For the shipped codec (gorilla) 1-4 concurrent writers per side are used and a tenth of the runs is repeated in a -race build with masked scheduler hand-offs, so that unsynchronised writers are reported.",
    note="The connection is a reliable ordered byte stream (no loss/duplication, as TCP). The simulator never parks a goroutine inside Write (codecs hold their write lock there), so byte interleaving of concurrent writers can only show as a race report or as gorilla's own concurrent-write panic. Step budget exhaustion with byte-at-a-time chunking is counted as inconclusive, not as loss.",
    technique=TECH+"byte-stream chunking schedules over real codecs, HTTP server and dialers; written-vs-read sequence oracle; race detector for concurrent writers", design="4 C17"),
  "C15": dict(level="exploration",
